@@ -156,6 +156,9 @@ def _rekey_case(bi, route, v, dst_state, prov, sib, payload):
             # the document handle of every live copy describes the new job
             for j in s.handles[0].jobs:
                 ok = ok and dict(j.document()) == doc and j.document.filename == j.path + "/signac_job_document.json"
+        if ok and src_uninit and not collided:
+            # a handle whose state point was edited BEFORE the job existed on disk initialises the job under the new id
+            ok = s.apply(0, "init") and s.agree("/p") and s.handles_follow(0)
         if ok and sib in (2, 3) and not collided:
             # independent handles (deepcopy / pickle) still work on their own: they keep denoting the old state point
             ok = s.apply(1, "init") and s.agree("/p")
